@@ -42,6 +42,9 @@ def load():
 
 
 def is_open(pid, fid):
+    # development aid: VERIF_OPEN_FINDINGS=id1,id2 treats those ids as open
+    if fid in [x for x in os.environ.get("VERIF_OPEN_FINDINGS", "").split(",") if x]:
+        return True
     return any(e["status"] == "open" and e["property"] == pid and e["id"] == fid for e in load())
 
 
